@@ -500,6 +500,9 @@ func (x *Exec) recordWrite(heap string, idx *Term) {
 	for _, r := range x.recorders {
 		r.writes = append(r.writes, writeRec{heap, idx})
 	}
+	if idx != nil && idx == x.tt.IntLit(-1) {
+		return // guarded modifies target whose guard is false: nothing is written
+	}
 	if idx != nil && idx.Kind == KApp && idx.Op == "ite" && idx.Args[2] == x.tt.IntLit(-1) {
 		// guarded modifies target (when(cond, lv)): the write happens only under cond
 		saved := x.curPC
